@@ -219,13 +219,16 @@ async fn worker_rpc_loop(
             let worker = worker_map.get_worker_mut(worker_id);
             let now = Instant::now();
             let elapsed = now - worker.last_heartbeat;
-            if elapsed > heartbeat_interval * 2 {
+            if elapsed > heartbeat_interval.saturating_mul(2) {
                 log::debug!("Heartbeat not arrived, worker={}", worker.id);
                 break LostWorkerReason::HeartbeatLost;
             }
 
             if let Some(timeout) = idle_timeout
-                && worker.idle_timestamp + timeout < now
+                && worker
+                    .idle_timestamp
+                    .checked_add(timeout)
+                    .is_some_and(|t| t < now)
                 && worker.is_free()
             {
                 log::debug!("Idle timeout reached, worker={}", worker.id);
